@@ -6,6 +6,7 @@ CONSTANTS
   Dev_NilSession = FALSE
   Dev_UnknownItem = FALSE
   Dev_BlockedFanout = FALSE
+  Dev_EndedSubFanout = FALSE
   SvcFilter = {"CreateSubscription","CreateMonitoredItems","SetMonitoringMode","DeleteMonitoredItems","DeleteSubscriptions","CloseSession","Publish","Read","Browse","Write","ActivateSession"}
 SPECIFICATION Spec
 INVARIANT InvEmit
